@@ -35,15 +35,14 @@ def _table_digest(t):
     for name in t.colnames:
         c = t[name]
         h.update(name.encode())
-        try:
-            a = np.ascontiguousarray(np.asarray(c))
-            h.update(a.tobytes())
-        except Exception:
-            jd = getattr(c, "jd1", None)
-            if jd is not None:
-                h.update(np.ascontiguousarray(c.jd1).tobytes() + np.ascontiguousarray(c.jd2).tobytes())
-            else:
-                h.update(repr(c).encode())
+        if hasattr(c, "jd1"):  # astropy Time mixin column: never hash object pointers
+            h.update(np.ascontiguousarray(c.jd1).tobytes() + np.ascontiguousarray(c.jd2).tobytes())
+            continue
+        a = np.asarray(c)
+        if a.dtype == object:
+            h.update(repr(a.tolist()).encode())
+        else:
+            h.update(np.ascontiguousarray(a).tobytes())
     for k, v in t.meta.items():
         h.update(repr((k, v)).encode())
     return h.hexdigest()[:16]
@@ -72,6 +71,7 @@ class StageTracer:
         self.last_sig = None
         self.in_fits = 0
         self.fits_lines = 0
+        self.in_import = 0
         self.snaps = [None]  # S_0: no file
         self.sides = [None]
         self.tdigests = [None]
@@ -152,9 +152,20 @@ class StageTracer:
         return grew
 
     # -- trace functions ------------------------------------------------------------
+    def local_import(self, frame, event, arg):
+        if event == "return":
+            self.in_import -= 1
+        return self.local_import
+
     def glob(self, frame, event, arg):
         code = frame.f_code
         fn = code.co_filename
+        # module bodies run once per process (first import): never steps, whoever imports
+        if code.co_name == "<module>":
+            self.in_import += 1
+            return self.local_import
+        if self.in_import:
+            return None
         if self.compute_frame is None:
             if code.co_name == "compute" and fn.startswith(self.src_prefix) and fn.endswith("compute.py"):
                 self.compute_frame = frame
